@@ -306,8 +306,11 @@ func parserResponseCookie(c *Client, resp *Response, req *Request) error {
 	var err error
 	resp.RawResponse.Header.VisitAllCookie(func(key, value []byte) {
 		cookie := fasthttp.AcquireCookie()
-		err = cookie.ParseBytes(value)
-		if err != nil {
+		// An attribute fasthttp cannot parse (a negative Max-Age) must not fail the request:
+		// the jar reads Max-Age itself, the cookie is listed with what could be parsed.
+		if perr := cookie.ParseBytes(value); perr != nil && len(cookie.Key()) == 0 {
+			fasthttp.ReleaseCookie(cookie)
+			err = perr
 			return
 		}
 		cookie.SetKeyBytes(key)
